@@ -41,7 +41,13 @@ def setup(ctx, rest_times, facts):
     tr, ftr = sp.Symbol("t_root", real=True), sp.Symbol("f_root", real=True)
 
     def fake_root(I_, args, kw):
-        captured["initial"], captured["f"], captured["df"] = args[0], args[1], args[2]
+        # bind like find_root's own signature (x, f, df, ...), positional or keyword
+        sig = [a.arg for a in I_.src.func("activation.find_root").node.args.args]
+        bound = dict(zip(sig, args))
+        bound.update(kw)
+        if len(sig) < 3 or any(n not in bound for n in sig[:3]):
+            raise AnalysisError("find_root is not called with a start value, a function and its derivative")
+        captured["initial"], captured["f"], captured["df"] = (bound[n] for n in sig[:3])
         return (tr, ftr)
     I.stubs["activation.find_root"] = fake_root
     return w, smp, captured, tr, ftr
@@ -138,8 +144,12 @@ def run(ctx):
     df = Builtin("df", lambda x: Fd(x))
     x0 = sp.Symbol("x0", real=True)
     s_fr = fsite(ctx, "activation.find_root")
+    frargs = [a.arg for a in ctx.src.func("activation.find_root").node.args.args]
+    if len(frargs) < 5:
+        raise AnalysisError("find_root(x, f, df, max, tol) signature not recognised")
+    maxname, tolname = frargs[3], frargs[4]
     for n in (0, 1, 2):
-        res = I.call(I.global_name("activation", "find_root"), [x0, f, df], {"max": sp.Integer(n)})
+        res = I.call(I.global_name("activation", "find_root"), [x0, f, df], {maxname: sp.Integer(n)})
         x, fx = res if not isinstance(res, Phi) else (None, None)
         if x is None:
             ctx.fail("R3", f"find_root(max={n}) returns a pair", f"returned {_s(res)}", s_fr)
@@ -153,6 +163,6 @@ def run(ctx):
                                       else g(sp.piecewise_fold(Ff(sp.sympify(x)))), ctx.seed)
         ctx.check(okk, "R3", f"find_root(max={n}) returns (x, f(x)) for the same x on every exit",
                   f"returned value {_s(fx, 150)} is not f at the returned x {_s(x, 150)} ({how})", s_fr, witness=wit)
-    newton = I.call(I.global_name("activation", "find_root"), [x0, f, df], {"max": sp.Integer(1), "tol": sp.Integer(0)})
+    newton = I.call(I.global_name("activation", "find_root"), [x0, f, df], {maxname: sp.Integer(1), tolname: sp.Integer(0)})
     eq(ctx, "R3", "one Newton step is x - f(x)/f'(x)", newton[0], x0 - Ff(x0) / Fd(x0), s_fr)
     ctx.assume("order facts about the symbolic rest times are supplied per case (T1 < T2, T2 < T1)")
